@@ -7,4 +7,7 @@ def build(bin_step, py_step, miri_step, fuzz_step):
     S["C03"] = [bin_step("c03"), bin_step("c03", release=True, tiers=("thorough",))]
     S["C04"] = [bin_step("c04"), bin_step("c04", release=True, tiers=("thorough",))]
     S["C05"] = [bin_step("c05"), bin_step("c05", release=True, tiers=("thorough",))]
+    S["C07"] = [bin_step("c07"), bin_step("c07", release=True, tiers=("thorough",))]
+    S["C08"] = [bin_step("c08"), bin_step("c08", release=True, tiers=("thorough",))]
+    S["C09"] = [bin_step("c09"), bin_step("c09", release=True, tiers=("thorough",))]
     return S
